@@ -306,7 +306,19 @@ fn fam_bdd(func: Option<&str>, only: Option<u64>) {
     }
     if want("complement") {
         let mut rep = Rep::new("bdd", "complement", only);
-        for a in &us {
+        // every diagram of depth <= 2 whose children have depth <= 1 (3 * 26^3), plus the reachable ones
+        let d1 = bdds_depth1();
+        let mut cs: Vec<Rc<Bdd>> = us.clone();
+        for at in ATOMS {
+            for l in &d1 {
+                for m in &d1 {
+                    for r in &d1 {
+                        cs.push(Rc::new(Bdd::Node { atom: at, left: l.clone(), middle: m.clone(), right: r.clone() }));
+                    }
+                }
+            }
+        }
+        for a in &cs {
             if !rep.want() {
                 continue;
             }
